@@ -671,4 +671,14 @@ def beam_list(repo: Repo, prop: str = PROP, rule: str = "C10.BEAM-LIST") -> Rule
 
 beam_list.rule_id = "C10.BEAM-LIST"
 
-RULES = [face_permutations, edge_map_rule, side_addressing, select_polarity, arguments_untouched, written_sides, no_class_state, affine_kinds, no_shared_parts, corner_patches, beam_list]
+def labels_private(repo: Repo) -> RuleRun:
+    """'projecting a ... corner ... affects exactly the block ... corner with those corner numbers': a corner projection of one operation is not written into the coincident corner of its neighbour's model. Same rule as C05.LABELS-PRIVATE."""
+    from . import c05
+
+    return c05.labels_private(repo, PROP, "C10.LABELS-PRIVATE")
+
+
+labels_private.rule_id = "C10.LABELS-PRIVATE"
+
+
+RULES = [face_permutations, edge_map_rule, side_addressing, select_polarity, arguments_untouched, written_sides, no_class_state, affine_kinds, no_shared_parts, corner_patches, beam_list, labels_private]
